@@ -37,10 +37,11 @@ pub fn get_structure_member_attributes(field: &Field) -> Result<StructureMemberA
     let mut hashid = false;
     let mut try_construct = None;
 
-    if let Some(xtypes_attribute) = field
+    // every `#[dust_dds(..)]` attribute is read (the IDL compiler writes one attribute per annotation)
+    for xtypes_attribute in field
         .attrs
         .iter()
-        .find(|attr| attr.path().is_ident("dust_dds"))
+        .filter(|attr| attr.path().is_ident("dust_dds"))
     {
         xtypes_attribute.parse_nested_meta(|meta| {
             if meta.path.is_ident("id") {
@@ -119,10 +120,11 @@ pub fn get_struct_attributes(input: &DeriveInput) -> Result<StructAttributes> {
     let mut is_nested = false;
     let mut base_type = None;
 
-    if let Some(xtypes_attribute) = input
+    // every `#[dust_dds(..)]` attribute is read (the IDL compiler writes one attribute per annotation)
+    for xtypes_attribute in input
         .attrs
         .iter()
-        .find(|attr| attr.path().is_ident("dust_dds"))
+        .filter(|attr| attr.path().is_ident("dust_dds"))
     {
         xtypes_attribute.parse_nested_meta(|meta| {
             if meta.path.is_ident("name") {
@@ -182,10 +184,11 @@ pub fn get_enumerated_type_attributes(input: &DeriveInput) -> Result<EnumeratedT
     let mut is_nested = false;
     let mut bit_bound = BitBound::I32;
 
-    if let Some(xtypes_attribute) = input
+    // every `#[dust_dds(..)]` attribute is read (the IDL compiler writes one attribute per annotation)
+    for xtypes_attribute in input
         .attrs
         .iter()
-        .find(|attr| attr.path().is_ident("dust_dds"))
+        .filter(|attr| attr.path().is_ident("dust_dds"))
     {
         xtypes_attribute.parse_nested_meta(|meta| {
             if meta.path.is_ident("name") {
@@ -241,10 +244,11 @@ pub fn get_union_type_attributes(input: &DeriveInput) -> Result<UnionAttributes>
     let mut is_discriminator_key = false;
     let mut discriminator_type = None;
 
-    if let Some(xtypes_attribute) = input
+    // every `#[dust_dds(..)]` attribute is read (the IDL compiler writes one attribute per annotation)
+    for xtypes_attribute in input
         .attrs
         .iter()
-        .find(|attr| attr.path().is_ident("dust_dds"))
+        .filter(|attr| attr.path().is_ident("dust_dds"))
     {
         xtypes_attribute.parse_nested_meta(|meta| {
             if meta.path.is_ident("name") {
@@ -287,7 +291,7 @@ pub fn get_union_type_attributes(input: &DeriveInput) -> Result<UnionAttributes>
                 Err(meta.error(UnknownAttributeError))
             }
         })?;
-    };
+    }
 
     let discriminator_type = discriminator_type.ok_or(syn::Error::new(
         input.span(),
@@ -312,10 +316,11 @@ pub fn get_union_variant_attributes(variant: &Variant) -> Result<UnionVariantAtt
     let mut case = Vec::new();
     let mut is_default = false;
 
-    if let Some(xtypes_attribute) = variant
+    // every `#[dust_dds(..)]` attribute is read (the IDL compiler writes one attribute per annotation)
+    for xtypes_attribute in variant
         .attrs
         .iter()
-        .find(|attr| attr.path().is_ident("dust_dds"))
+        .filter(|attr| attr.path().is_ident("dust_dds"))
     {
         xtypes_attribute.parse_nested_meta(|meta| {
             if meta.path.is_ident("case") {
